@@ -333,6 +333,9 @@ func init() {
 					whats = append(whats, "unknown-tag")
 				}
 				whats = append(whats, "illegal:"+string("!$@`"[i%4]))
+				if i > 0 && tk.Kind == "word" && (toks[i-1].S == "." || toks[i-1].S == "|") && toks[i-1].Kind != "text" {
+					whats = append(whats, "bad-operand") // a string where an attribute or filter name belongs
+				}
 				for _, w := range whats {
 					cs := *base
 					cs.Kind, cs.At, cs.What = "inject", i, w
@@ -393,6 +396,8 @@ func c20Inject(toks []m.Tok, pos []m.Pos, src string, cs *c20Case) (string, int,
 		ch := cs.What[len("illegal:"):]
 		// inserted as its own token in front of token i
 		return src[:at] + ch + " " + src[at:], line, col, true
+	case cs.What == "bad-operand":
+		return src[:at] + "'q'" + src[at+len(toks[i].S):], line, col, true
 	case cs.What == "surplus":
 		if toks[i].Kind != "close" {
 			return "", 0, 0, false
